@@ -129,6 +129,23 @@ def run_identity(ctx, case):
                 I1.invert(inplace=True)
             else:
                 I1.dot(A, inplace=True)
+        # a modified identity array is an ordinary MatrixArray: its inverse is the per-matrix inverse of what it holds NOW
+        cur = np.array(I1.data, dtype=float, copy=True)
+        if np.all(np.isfinite(cur)):
+            try:
+                cnd = max(np.linalg.cond(m) for m in cur)
+            except np.linalg.LinAlgError:
+                cnd = np.inf
+            if cnd < 1e6:
+                with np.errstate(all='ignore'):
+                    inv = I1.invert()
+                want = np.array([np.linalg.inv(m) for m in cur])
+                if not np.allclose(np.asarray(inv.data, dtype=float), want, rtol=1e-9, atol=1e-9 * np.abs(want).max()):
+                    ctx.violation('ma:value:invert', 'invert() of an IdentityMatrixArray modified by %s differs from the per-matrix inverse of its current data' % steps)
+                    return
+                if not np.array_equal(np.asarray(I1.data, dtype=float), cur):
+                    ctx.violation('ma:outofplace-modified-left', 'invert() changed the IdentityMatrixArray it was called on')
+                    return
         I3 = IdentityMatrixArray(length=L, rank=n, space=sp, types=types)
         if not is_identity(I2, n, L):
             ctx.violation('ma:identity-instances-share-data', 'after %s on one IdentityMatrixArray a DIFFERENT instance of the same shape is no longer the identity' % steps)
